@@ -13,7 +13,7 @@ def hi(cls, m):
     if cls == "MinGenSet":
         # range(lb, max(lb, upper) + 1), upper = #distinct numbers + 1 + sum(parts - 1)   (fix 6c30e65)
         upper = len(set(m.numbers)) + 1 + sum(max(len(c) - 1, 0) for c in (m.partition_constraints or []))
-        return max(m.lowerbound, upper) + 1
+        return max(max(m.lowerbound, 1), upper) + 1      # the loop starts at max(lowerbound, 1)
     raise KeyError(cls)
 
 
